@@ -49,8 +49,7 @@ func ResourceMatches(resources []string, combinedRequestedResource, requestedSub
 		// if the rule isn't in the format */subresource, then we don't match, continue
 		if strings.HasPrefix(m.value, "*/") {
 			allSubresource := "*/" + requestedSubresource
-			if (!m.reverse && m.value == allSubresource) ||
-				(m.reverse && m.value != allSubresource) {
+			if m.value == allSubresource {
 				return true
 			}
 		}
@@ -125,19 +124,26 @@ func simpleMatches(rules []string, requests []string, matchFn ...func(m matcher)
 		return true
 	}
 
+	if len(filtered) == 0 {
+		return false
+	}
+
+	// filterRules returns either positive rules only or reversed rules only.
+	// A reversed list matches exactly the requests that the corresponding positive list does not match.
+	reverse := filtered[0].reverse
 	for _, v := range filtered {
 		for _, request := range requests {
-			if v.match(request) {
-				return true
+			if v.value == request {
+				return !reverse
 			}
 		}
 		for _, match := range matchFn {
 			if match(v) {
-				return true
+				return !reverse
 			}
 		}
 	}
-	return false
+	return reverse
 }
 
 type matcher struct {
